@@ -4,13 +4,13 @@ CONSTANTS
   Roles = {"r1", "r2"}
   KeyShapes <- SmallShapes
   ClientRoleChoices <- ClientChoicesSmall
-  Peers = {"untrusted", "trusted", "neighbour", "trusted6", "neighbour6"}
+  Peers = {"untrusted", "trusted6", "neighbour6"}
   Xffs = {"none", "one"}
-  TlsIds = {"fp", "ca", "canoeku", "unk", "none", "casamekey", "caexpired"}
-  HdrIds = {"fp", "ca", "canoeku", "unk", "none", "bad", "casamekey", "caexpired"}
+  TlsIds = {"fp", "canoeku", "none"}
+  HdrIds = {"ca", "none"}
   Endpoints = {"sign", "getkey", "listkeys"}
-  ReqNames = {"ka", "kb", "unknown"}
-  Variant = "code"
+  ReqNames = {"ka"}
+  Variant = "PrefixTrust6"
 SPECIFICATION Spec
 INVARIANTS TypeOK OnlyEntitled RefusedOtherwise EntitledServed ListingExact UntrustedHeadersInert AddrIsTrue PureAgrees
 CHECK_DEADLOCK FALSE
